@@ -114,9 +114,10 @@ impl KvSoundTrait for KvDc {
 #[kani::proof]
 #[kani::unwind(3)]
 fn c15_spatial_track_without_listener_is_silent() {
-	let clocks = Clocks::new(0).0;
-	let modulators = Modulators::new(0).0;
-	let mut listeners = Listeners::new(1).0;
+	let (clocks, ca) = Clocks::new(0);
+	let (modulators, cb) = Modulators::new(0);
+	let (mut listeners, cc) = Listeners::new(1);
+	std::mem::forget(ca); std::mem::forget(cb); std::mem::forget(cc);
 	let (mut st, stc) = ResourceStorage::<SendTrack>::new(0);
 	let mode: u8 = kani::any();
 	kani::assume(mode < 3);
